@@ -277,7 +277,7 @@ func slice(i *interpreter, x, lo, hi, max value) value {
 		Cap = cap(x)
 	case *value: // *array
 		if x == nil {
-			panic("runtime error: invalid memory address or nil pointer dereference")
+			panic(rtPanic("runtime error: invalid memory address or nil pointer dereference"))
 		}
 		a := (*x).(array)
 		Len = len(a)
@@ -303,7 +303,7 @@ func slice(i *interpreter, x, lo, hi, max value) value {
 		m = i.concBound(max, bound)
 	}
 	if l > h || h > m {
-		panic(fmt.Sprintf("runtime error: slice bounds out of range [%d:%d:%d]", l, h, m))
+		panic(rtPanicf("runtime error: slice bounds out of range [%d:%d:%d]", l, h, m))
 	}
 
 	switch x := x.(type) {
@@ -325,13 +325,13 @@ func (i *interpreter) concIndex(idx value, n int) int {
 	if sv, ok := idx.(symInt); ok {
 		v, ok := i.ps.concretize(sv.t, kindSigned(sv.k), 0, int64(n)-1)
 		if !ok {
-			panic(fmt.Sprintf("runtime error: index out of range [symbolic] with length %d", n))
+			panic(rtPanicf("runtime error: index out of range [symbolic] with length %d", n))
 		}
 		return int(v)
 	}
 	k := asInt64(idx)
 	if k < 0 || k >= int64(n) {
-		panic(fmt.Sprintf("runtime error: index out of range [%d] with length %d", k, n))
+		panic(rtPanicf("runtime error: index out of range [%d] with length %d", k, n))
 	}
 	return int(k)
 }
@@ -341,13 +341,13 @@ func (i *interpreter) concBound(b value, n int) int64 {
 	if sv, ok := b.(symInt); ok {
 		v, ok := i.ps.concretize(sv.t, kindSigned(sv.k), 0, int64(n))
 		if !ok {
-			panic(fmt.Sprintf("runtime error: slice bounds out of range [symbolic] with capacity %d", n))
+			panic(rtPanicf("runtime error: slice bounds out of range [symbolic] with capacity %d", n))
 		}
 		return v
 	}
 	k := asInt64(b)
 	if k < 0 || k > int64(n) {
-		panic(fmt.Sprintf("runtime error: slice bounds out of range [%d] with capacity %d", k, n))
+		panic(rtPanicf("runtime error: slice bounds out of range [%d] with capacity %d", k, n))
 	}
 	return k
 }
@@ -359,7 +359,7 @@ func (i *interpreter) concSize(b value, msg string) int {
 		if !ok {
 			// negative → runtime panic; > 64 → outside the engine's bound
 			if i.ps.decide(i.ps.tf.cmp(opSLt, i.ps.tf.resize(sv.t, 64, kindSigned(sv.k)), i.ps.tf.bv(0, 64))) {
-				panic("runtime error: " + msg)
+				panic(rtPanic("runtime error: " + msg))
 			}
 			panic(pathAbort{"bound", "symbolic make size > 64"})
 		}
@@ -367,7 +367,7 @@ func (i *interpreter) concSize(b value, msg string) int {
 	}
 	k := asInt64(b)
 	if k < 0 {
-		panic("runtime error: " + msg)
+		panic(rtPanic("runtime error: " + msg))
 	}
 	return int(k)
 }
@@ -667,7 +667,7 @@ func binop(i *interpreter, op token.Token, t types.Type, x, y value) value {
 	case token.SHL:
 		u, ok := asUnsigned(y)
 		if !ok {
-			panic("negative shift amount")
+			panic(rtPanic("runtime error: negative shift amount"))
 		}
 		y := asUint64(u)
 		switch x.(type) {
@@ -698,7 +698,7 @@ func binop(i *interpreter, op token.Token, t types.Type, x, y value) value {
 	case token.SHR:
 		u, ok := asUnsigned(y)
 		if !ok {
-			panic("negative shift amount")
+			panic(rtPanic("runtime error: negative shift amount"))
 		}
 		y := asUint64(u)
 		switch x.(type) {
@@ -951,7 +951,7 @@ func unop(i *interpreter, instr *ssa.UnOp, x value) value {
 	case token.MUL:
 		p := x.(*value)
 		if p == nil {
-			panic("runtime error: invalid memory address or nil pointer dereference")
+			panic(rtPanic("runtime error: invalid memory address or nil pointer dereference"))
 		}
 		return load(deref(instr.X.Type()), p)
 	case token.NOT:
@@ -1009,7 +1009,7 @@ func typeAssert(i *interpreter, instr *ssa.TypeAssert, itf iface) value {
 
 	if err != "" {
 		if !instr.CommaOk {
-			panic(err)
+			panic(rtPanic(err))
 		}
 		return tuple{zero(instr.AssertedType), false}
 	}
@@ -1110,7 +1110,7 @@ func callBuiltin(caller *frame, callpos token.Pos, fn *ssa.Builtin, args []value
 		if recv.(*value) == nil {
 			recvType := args[1]
 			methodName := args[2]
-			panic(fmt.Sprintf("value method (%s).%s called using nil *%s pointer",
+			panic(rtPanicf("value method (%s).%s called using nil *%s pointer",
 				recvType, methodName, recvType))
 		}
 		return recv
